@@ -443,12 +443,17 @@ func (i *interpreter) checkAssert(label string, c *Expr, kind, detail string) {
 		f := &Finding{Harness: ex.harness, Label: label, Kind: kind, Detail: detail, Values: i.modelToValues(model),
 			Path: append([]int64(nil), i.path.decisions...)}
 		ex.addFinding(f)
-		// continue under the assumption that the assertion held
-		r2, _ := i.sol.check(c, false, nil)
-		if r2 == "unsat" {
-			panic(pathEnd{"assert-always-false"})
+		// continue under the assumption that the assertion held - unless it
+		// fails for every input of this path: then carry on unconstrained, so
+		// that later assertions on the same path are still checked (a recorded
+		// known finding must not shadow a different violation)
+		if kind == "panic" {
+			panic(pathEnd{"panic-reported"})
 		}
-		i.addPC(c)
+		r2, _ := i.sol.check(c, false, nil)
+		if r2 != "unsat" {
+			i.addPC(c)
+		}
 	default:
 		ex.mu.Lock()
 		ex.assertUnknown[label]++
